@@ -615,6 +615,32 @@ def M_retain(ex, n, a):
     return NotImplemented
 
 
+def M_split_off(ex, n, a):
+    v = recv(a)
+    if isinstance(v, MapV) and v.ordered:
+        keep = []; off = []
+        for k, c in v.entries:
+            lt, _ = values_lt_eq(ex, k, a[1])
+            (keep if ex.branch(lt) else off).append((k, c))
+        v.entries[:] = keep
+        return MapV(off, True, v.kind)
+    if isinstance(v, VecV):
+        if not a[1].concrete: raise Unmodelled('split_off at symbolic index')
+        tail = v.items[a[1].e:]; del v.items[a[1].e:]
+        return VecV(tail, v.kind)
+    return NotImplemented
+
+
+def M_append(ex, n, a):
+    v = recv(a); o = deref_all(a[1])
+    if isinstance(v, VecV) and isinstance(o, VecV):
+        v.items.extend(o.items); o.items.clear(); return UNIT
+    if isinstance(v, MapV) and isinstance(o, MapV):
+        for k, c in list(o.entries): map_insert(ex, v, k, c.v)
+        o.entries.clear(); return UNIT
+    return NotImplemented
+
+
 def M_iter(ex, n, a):
     v = recv(a)
     if isinstance(v, (VecV, MapV)): return as_iter(ex, vec_ref(a[0]) if isinstance(a[0], Ref) else a[0])
@@ -1517,7 +1543,7 @@ METHODS = {
     'contains_key': [M_contains_key], 'contains': [M_contains], 'insert': [M_insert], 'remove': [M_remove], 'push': [M_push], 'push_back': [M_push],
     'push_front': [M_push_front], 'pop': [M_pop], 'pop_back': [M_pop], 'pop_front': [M_pop_front], 'front': [M_front], 'back': [M_back],
     'first': [M_first], 'last': [M_last], 'first_key_value': [M_first_key_value], 'last_key_value': [M_last_key_value],
-    'clear': [M_clear], 'truncate': [M_truncate], 'retain': [M_retain], 'retain_mut': [M_retain],
+    'split_off': [M_split_off], 'append': [M_append], 'clear': [M_clear], 'truncate': [M_truncate], 'retain': [M_retain], 'retain_mut': [M_retain],
     'iter': [M_iter], 'iter_mut': [M_iter], 'keys': [M_keys], 'values': [M_values], 'values_mut': [M_values], 'into_values': [M_into_values], 'into_keys': [M_into_keys],
     'into_iter': [M_into_iter], 'entry': [M_entry], 'or_default': [M_or_default], 'or_insert': [M_or_insert], 'or_insert_with': [M_or_insert_with],
     'next': [M_next], 'enumerate': [I_enumerate], 'map': [I_map], 'filter': [I_filter], 'filter_map': [I_filter_map], 'flat_map': [I_flat_map], 'flatten': [I_flatten],
